@@ -95,6 +95,28 @@ def match_known(v, known):
     return None
 
 
+def replay_file(path, modname=None):
+    """Re-execute exactly the case (or, for explicit-state checks, exactly the call history) stored in a replay file, without
+    any exploration.  Returns the list of violations that are not known findings.  Used by `./check Cxx --replay` and by
+    the plain pytest file written next to every replay file."""
+    import importlib
+    rep = json.load(open(path))
+    if modname is None:
+        modname = rep['module']
+    mod = importlib.import_module(modname)
+    _init_worker(modname)
+    if hasattr(mod, 'replay_violation') and rep.get('violation', {}).get('detail', {}).get('history'):
+        viol = mod.replay_violation(rep)
+    else:
+        spec = mod.spec_from_json(rep['spec']) if hasattr(mod, 'spec_from_json') else rep['spec']
+        res = _run_one((rep['case_id'], spec))
+        if res.get('internal_error'):
+            raise RuntimeError(res['internal_error'])
+        viol = res.get('viol', [])
+    known = load_findings(mod.PID)
+    return [v for v in viol if not match_known(v, known)]
+
+
 def main(modname):
     import importlib
     mod = importlib.import_module(modname)
@@ -110,18 +132,13 @@ def main(modname):
     t0 = time.time()
 
     if args.replay:
-        rep = json.load(open(args.replay))
-        _init_worker(modname)
-        spec = mod.spec_from_json(rep['spec']) if hasattr(mod, 'spec_from_json') else rep['spec']
-        res = _run_one((rep['case_id'], spec))
-        if res.get('internal_error'):
-            print(res['internal_error'])
+        try:
+            bad = replay_file(args.replay, modname)
+        except RuntimeError as e:
+            print(e)
             sys.exit(2)
-        known = load_findings(pid)
-        bad = [v for v in res.get('viol', []) if not match_known(v, known)]
-        for v in res.get('viol', []):
-            print(('VIOLATION' if v in bad else 'KNOWN-FINDING:') + ' property=%s case=%s site=%s clause=%s :: %s'
-                  % (pid, rep['case_id'], v.get('site'), v.get('clause'), v.get('msg')))
+        for v in bad:
+            print('VIOLATION property=%s replay=%s\n  site=%s clause=%s :: %s' % (pid, args.replay, v.get('site'), v.get('clause'), v.get('msg')))
         print('replay: %d violation(s)' % len(bad))
         sys.exit(1 if bad else 0)
 
@@ -207,8 +224,13 @@ def main(modname):
         spec = spec_by_id.get(v['case_id'])
         if hasattr(mod, 'spec_to_json'):
             spec = mod.spec_to_json(spec)
-        json.dump(jsonable({'property': pid, 'case_id': v['case_id'], 'spec': spec, 'violation': v,
+        json.dump(jsonable({'property': pid, 'module': modname, 'case_id': v['case_id'], 'spec': spec, 'violation': v,
                             'replay_cmd': './check %s --replay %s' % (pid, path)}), open(path, 'w'), indent=1)
+        # a plain unit test that replays the artefact without the explorer
+        with open(path[:-5] + '_test.py', 'w') as tf:
+            tf.write('"""Replays %s (property %s, case %s) on the tree under $VERIF_REPO (default /repo); fails while the violation is present."""\n'
+                     'import sys\nsys.path.insert(0, %r)\nfrom mc import runner\n\n\ndef test_replay():\n'
+                     '    assert runner.replay_file(%r) == []\n' % (os.path.basename(path), pid, v['case_id'], env.VERIF_DIR, path))
         print('VIOLATION property=%s replay=%s' % (pid, path))
         print('  case=%s site=%s clause=%s :: %s' % (v['case_id'], v.get('site'), v.get('clause'), v.get('msg')))
         printed += 1
